@@ -2,6 +2,7 @@
 package c15
 
 import (
+	"os"
 	"bytes"
 	"encoding/json"
 	"fmt"
@@ -461,6 +462,12 @@ func TestP2Closure(t *testing.T) {
 }
 
 func TestReplay(t *testing.T) {
+	if msg, ok := replayFuzzCase(os.Getenv("VERIF_REPLAY")); ok {
+		if msg != "" {
+			t.Fatalf("%s", msg)
+		}
+		return
+	}
 	rc, err := ev.LoadReplay()
 	if err != nil {
 		t.Fatal(err)
